@@ -113,6 +113,15 @@ def _body(repo, rep):
             if isinstance(n, ast.AugAssign) and norm(n.target) == var and isinstance(n.op, ast.Sub) and isinstance(n.value, ast.Constant):
                 sites.append((fn, n, n.value.value, "sub"))
     rep.floor("fragment-size constant sites", len(sites), 7)
+    # the payload size is `maximum - k` and nothing else: any other write to the size variable (a rounding, a
+    # cap, a value-dependent adjustment) makes the size the generator slices by differ from the one the
+    # fragment count in encode_msg is computed with - fragments are then left unsent or mis-flagged
+    site_stmts = {id(enclosing(n, (ast.stmt,)) if not isinstance(n, ast.stmt) else n) for _, n, _, _ in sites}
+    for fn, var in ((enc, "max_pdu_length"), (gen, "fragment_length")):
+        for st_ in walk_no_nested(fn):
+            tg = st_.targets if isinstance(st_, ast.Assign) else [st_.target] if isinstance(st_, (ast.AugAssign, ast.AnnAssign)) and getattr(st_, "value", None) is not None else []
+            if any(norm(t_) == var for t_ in tg) and id(st_) not in site_stmts:
+                rep.fail("overhead", f"{FQ}.{fn.name}", st_, f"`{norm(st_)}` changes the fragment size by something other than the constant PDV overhead: the generator and the fragment count in encode_msg no longer use the same payload size, so for some lengths the last fragments are never sent (or the 'last' flag lands on a fragment that is not the last)", mod=mod, node=st_)
     ks = {k for _, _, k, _ in sites}
     for fn, n, k, kind in sites:
         st = enclosing(n, (ast.stmt,)) if not isinstance(n, ast.stmt) else n
